@@ -159,6 +159,8 @@ def valid_strings(full_len, small_len):
     for p in PREFIXES:
         pl = f"[prefix={p}]" if p else ""
         yield ("string.empty" + pl, p + '""')
+        for body in ("<%d>", "%d%%>", "a%:b", "<:x:>", "%:%:", "a<%", "?:>", "100%>"):
+            yield ("string.digraph-text" + pl, p + '"' + body + '"')
         for n in range(1, full_len + 1):
             for combo in itertools.product(els, repeat=n):
                 kinds = "+".join(sorted({k for k, _ in combo}))
